@@ -54,8 +54,13 @@ func (p *resultsPrinter) PrintedAnything() bool {
 }
 
 func (p *resultsPrinter) printNode(node *CandidateNode, writer io.Writer) error {
-	p.printedMatches = p.printedMatches || (node.Tag != "!!null" &&
-		(node.Tag != "!!bool" || isTruthyNode(node)))
+	// an alias counts as what it stands for
+	value := node
+	for value.Kind == AliasNode && value.Alias != nil {
+		value = value.Alias
+	}
+	p.printedMatches = p.printedMatches || (value.Tag != "!!null" &&
+		(value.Tag != "!!bool" || isTruthyNode(value)))
 	return p.encoder.Encode(writer, node)
 }
 
